@@ -1528,6 +1528,19 @@ class Extension(HasSemantics):
             self._value = datatypes.trivial_cast(value, self.value_type)
 
     @property
+    def value_type(self) -> Optional[DataTypeDefXsd]:
+        return self._value_type
+
+    @value_type.setter
+    def value_type(self, value_type: Optional[DataTypeDefXsd]) -> None:
+        # keep value and value_type consistent: an existing value is re-cast (or the assignment is refused)
+        if getattr(self, "_value", None) is not None:
+            if value_type is None:
+                raise ValueError('ValueType must be set, if value is not None')
+            self._value = datatypes.trivial_cast(self._value, value_type)
+        self._value_type: Optional[DataTypeDefXsd] = value_type
+
+    @property
     def name(self):
         return self._name
 
@@ -1673,6 +1686,17 @@ class Qualifier(HasSemantics):
             self._value = None
         else:
             self._value = datatypes.trivial_cast(value, self.value_type)
+
+    @property
+    def value_type(self) -> DataTypeDefXsd:
+        return self._value_type
+
+    @value_type.setter
+    def value_type(self, value_type: DataTypeDefXsd) -> None:
+        # keep value and value_type consistent: an existing value is re-cast (or the assignment is refused)
+        if getattr(self, "_value", None) is not None:
+            self._value = datatypes.trivial_cast(self._value, value_type)
+        self._value_type: DataTypeDefXsd = value_type
 
     @property
     def type(self):
